@@ -9,7 +9,7 @@ pub fn family() -> Family {
 
 fn corpus() -> Vec<&'static str> {
     vec!["a", "  foo", "(a b)", "(a\n b)", "'x", "#(1 2)", "(a . b)", "(a (b c) . d)", "#u8(1 2)", "`(a ,b ,@c)", ",@x", "'(a 'b)", "\"str\\n\" #\\x", "(1.5 -2 #t)",
-         "\u{3bb} (\u{3bb}x \"\u{3bb}\" y)", "\"\u{e9}\" z", "(a . 'b)", "[a b]", "#(a #(b) (c))", "(a ; c\n b)\n(c\n\n d)", "(.a)", "(a . (b c))", "((a) (b))", "  ( a )  b", "(,@a)", "'#(1)", "''a", "(a\r b)\r\n(c\r d)", "a\r\nb"]
+         "\u{3bb} (\u{3bb}x \"\u{3bb}\" y)", "\"\u{e9}\" z", "(a . 'b)", "[a b]", "#(a #(b) (c))", "(a ; c\n b)\n(c\n\n d)", "(.a)", "(a . (b c))", "((a) (b))", "  ( a )  b", "(,@a)", "'#(1)", "''a", "(a\r b)\r\n(c\r d)", "a\r\nb", "(doc \"first\nsecond\" tail)", "\"a\n\nb\" x\n(y \"\n\")", "(a\n,\nb)", "sym\n12\n:k\n"]
 }
 fn optsets() -> Vec<Options> { vec![Options::default(), Options::elisp()] }
 
